@@ -9,8 +9,8 @@ from props import c02
 from vlib import poly_from_points, poly_eval
 
 ID = "C03"
-LEAN_MODULES = ["NdInterp.Props.C03", "NdInterp.Props.C02", "NdInterp.Props.RatTie", "NdInterp.Props.FormulaTie.SplSys", "NdInterp.Props.FormulaTie.SplEval", "NdInterp.Props.FormulaTie.PerSys", "NdInterp.Props.FormulaTie.TabSpec"]
-THEOREM_FILES = [("NdInterp/Props/C03.lean", "C03_"), ("NdInterp/Props/FormulaTie/SplSys.lean", "FT_spl_"), ("NdInterp/Props/FormulaTie/SplEval.lean", "FT_spl_"), ("NdInterp/Props/FormulaTie/PerSys.lean", "FT_per_three"), ("NdInterp/Props/FormulaTie/PerSys.lean", "FT_per_rows"), ("NdInterp/Props/FormulaTie/PerSys.lean", "FT_per_combine"), ("NdInterp/Props/FormulaTie/TabSpec.lean", "FT_tab_")]
+LEAN_MODULES = ["NdInterp.Props.C03", "NdInterp.Props.C02", "NdInterp.Props.RatTie", "NdInterp.Props.FormulaTie.SplSys", "NdInterp.Props.FormulaTie.SplEval", "NdInterp.Props.FormulaTie.PerSys", "NdInterp.Props.FormulaTie.TabSpec", "NdInterp.Props.FormulaTie.Ctl"]
+THEOREM_FILES = [("NdInterp/Props/C03.lean", "C03_"), ("NdInterp/Props/FormulaTie/SplSys.lean", "FT_spl_"), ("NdInterp/Props/FormulaTie/SplEval.lean", "FT_spl_"), ("NdInterp/Props/FormulaTie/PerSys.lean", "FT_per_three"), ("NdInterp/Props/FormulaTie/PerSys.lean", "FT_per_rows"), ("NdInterp/Props/FormulaTie/PerSys.lean", "FT_per_combine"), ("NdInterp/Props/FormulaTie/TabSpec.lean", "FT_tab_"), ("NdInterp/Props/FormulaTie/Ctl.lean", "FT_ctl_")]
 RULE = ("CubicSpline at Q, exact: every ordered pair (left,right) of the 5 single-end conditions x n in {3,4,5,6,9,..} x axis kinds "
         "(non-uniform, mesh ratio up to 2^6), Periodic, whole-data-set and per-lane Individual/Mixed assignments with derivative values. "
         "Oracle 1: residual of the selected end condition on the cubic fitted to 4 exact samples of each end piece (S'(end)=v, S''(end)=v, "
